@@ -373,7 +373,7 @@ class Index:
                 ilis[('e', o[0])] = [o[0], o[1], o[2]]
         T['ilis'] = sorted(ilis.values(), key=repr)
         if search_forms:
-            # exact form search (generated forms are already in normal form): a word form is visible
+            # form search: a word form is visible
             # when the lexicon that defines it is selected; senses and synsets are found through the
             # selected senses of such entries
             sel = set(S)
@@ -389,14 +389,31 @@ class Index:
                 return fs
             vis = {wk: visible(wk) for wk in self.words}
             T['search'] = {}
-            for q in search_forms:
-                ws = sorted(wk for wk, wrec in self.words.items() if wrec['lex'] in sel and q in vis[wk])
-                ss_ = sorted(sk for sk, srec in self.senses.items() if srec['lex'] in sel and q in vis[srec['word']])
+
+            def hit(q, fs):
+                # the documented look-up with the default normalizer: the stored form or, where it differs,
+                # its stored normalised form equals the query
+                return any(f == q or (_norm(f) != f and _norm(f) == q) for f in fs)
+
+            def find(q):
+                ws = sorted(wk for wk, wrec in self.words.items() if wrec['lex'] in sel and hit(q, vis[wk]))
+                ss_ = sorted(sk for sk, srec in self.senses.items() if srec['lex'] in sel and hit(q, vis[srec['word']]))
                 syn = sorted({srec['synset'] for sk, srec in self.senses.items()
-                              if srec['lex'] in sel and q in vis[srec['word']]
+                              if srec['lex'] in sel and hit(q, vis[srec['word']])
                               and srec['synset'].split('|', 1)[0] in sel})
-                T['search'][q] = [ws, ss_, syn]
+                return [ws, ss_, syn]
+            for q in search_forms:
+                first, second = find(q), find(_norm(q))
+                # only if a kind of search finds nothing is the query itself normalised and matched again
+                T['search'][q] = [a or b for a, b in zip(first, second)]
         return T, unordered
+
+
+def _norm(s):
+    """the documented default normalizer, written independently of wn: lower-case, NFKD, characters with a
+    non-zero canonical combining class dropped"""
+    import unicodedata
+    return ''.join(c for c in unicodedata.normalize('NFKD', s.lower()) if not unicodedata.combining(c))
 
 
 def normalize_unordered(T, unordered):
